@@ -957,7 +957,10 @@ def sym_if(c, a, b):
         raise SymUnsupported('sym_if over %r / %r' % (type(a), type(b)))
     if la.p == lb.p and la.q == lb.q:
         return a
-    return SR.atom(z3.If(c.z, la.z, lb.z))
+    at = SR.atom(z3.If(c.z, la.z, lb.z))
+    if is_int_valued(la) and is_int_valued(lb):
+        _mark_int(at)
+    return at
 
 
 def sym_abs(x):
@@ -982,6 +985,8 @@ def sym_abs(x):
     (m, _), = at.p.items()
     ST.abs_atoms.setdefault(m[0][0], q)
     ST.nonneg_atoms.add(m[0][0])
+    if is_int_valued(q):
+        ST.int_atoms.add(m[0][0])
     return at * abs(c)
 
 
@@ -991,7 +996,7 @@ def sym_sign(x):
     if x.is_const():
         c = x.const_value()
         return 1.0 if c > 0 else (-1.0 if c < 0 else 0.0)
-    return SR.atom(z3.If(x.z > 0, z3.RealVal(1), z3.If(x.z < 0, z3.RealVal(-1), z3.RealVal(0))))
+    return _mark_int(SR.atom(z3.If(x.z > 0, z3.RealVal(1), z3.If(x.z < 0, z3.RealVal(-1), z3.RealVal(0)))))
 
 
 def sym_max(a, b):
@@ -1037,6 +1042,8 @@ def sym_extreme_n(items, is_max):
         else:
             eng.add_def(z3.And(z3.And(*[mv <= z for z in zs]), z3.Or(*[mv == z for z in zs])))
         m = SR.atom(mv)
+        if all(is_int_valued(x) for x in syms):
+            _mark_int(m)
         ST.ext_defs[str(mv)] = (is_max, list(syms))
         eng.defs_cache[key] = m
     return m
@@ -1231,6 +1238,16 @@ def is_int_valued(x):
                     return False
         return True
     return False
+
+
+def _mark_int(at):
+    """records that the single-atom term `at` only takes integer values (a merge / |.| / sign / extreme of integer-valued
+    terms), so that storing it into an integer array is recognised as exact."""
+    if isinstance(at, SR) and at.q is None and len(at.p) == 1:
+        (m, _), = at.p.items()
+        if len(m) == 1 and m[0][1] == 1:
+            ST.int_atoms.add(m[0][0])
+    return at
 
 
 def int_atom(zint):
